@@ -168,7 +168,11 @@ func (m *Machine) onUncaughtPanic(t *Thread, msg string) {
 		cs.Reached++
 		cs.Violated++
 		model := m.pathModel()
-		m.recordViolation("nopanic", model, "uncaught panic in thread "+t.name+": "+msg)
+		note := "uncaught panic in thread " + t.name + ": " + msg
+		if m.faultPos != "" {
+			note += " [" + m.faultPos + "]"
+		}
+		m.recordViolation("nopanic", model, note)
 	}()
 	m.finishPath(PathOutcome{"panic", msg})
 }
